@@ -113,7 +113,7 @@ var specs = map[string]*propSpec{
 		guard{"alloc.c07.hinted_free_block", 1000, "hints naming a free block"}),
 	"C01": {
 		level:       "exploration",
-		rule:        "each case draws a DHCPv4 and/or DHCPv6 chain over all built-in plugins (any subset, any order, arguments from each plugin's accepted grammar; half of the cases dual-stack in one process), a listener bound to ve0/vf0 or unbound, and a history of 500-700 datagrams mixing stateful client scripts (6 DHCPv4 clients incl. hlen 0, 5 and 16; 4 DHCPv6 clients with IA_PD hints of length 0/64/72/128/200, IA_NA, relayed with client-link-layer option), retransmissions, grammar-generated well-formed and hostile datagrams, mutations (bit/byte flips, truncation, length +-1, duplication, splice, trailers), the empty datagram and 65507-byte datagrams; then one canary request per protocol. It runs in a fresh server process inside the private network namespace (link-level replies are real frames). Oracle: process alive, every datagram's handling returned (a watchdog expiry is a violation only if the goroutine dump shows a handler parked on a lock), canary handled, at most one reply (UDP captures + sniffed frames) per datagram. Non-trivial = history in which the chain produced at least one reply; distinct by (seed, chains)",
+		rule:        "each case draws a DHCPv4 and/or DHCPv6 chain over all built-in plugins (any subset, any order, arguments from each plugin's accepted grammar; half of the cases dual-stack in one process), a listener bound to ve0/vf0 or unbound, and a history of 500-700 datagrams mixing stateful client scripts (6 DHCPv4 clients incl. hlen 0, 5 and 16; 4 DHCPv6 clients with IA_PD hints of length 0/64/72/128/200, IA_NA, relayed with client-link-layer option), retransmissions, grammar-generated well-formed and hostile datagrams, mutations (bit/byte flips, truncation, length +-1, duplication, splice, trailers), the empty datagram and 65507-byte datagrams; then one canary request per protocol. It runs in a fresh server process inside the private network namespace (link-level replies are real frames). Oracle: process alive, every datagram's handling returned (a watchdog expiry is a violation only if the goroutine dump shows a handler parked on a lock), canary handled, at most one reply (UDP captures + sniffed frames) per datagram. The log level is a dimension of the case (debug 1/4, warning 1/8, error 1/8, else info); a slice of the histories runs against a GOARCH=386 build of the whole server (chains without range); the thorough tier adds prefix-plugin instances driven again after a real wait of one hour. Non-trivial = history in which the chain produced at least one reply; distinct by (seed, chains)",
 		assumptions: assume("'never blocks forever' is observed as 'returned within a 150 s watchdog for the whole history, or no lock-parked handler in the dump'", "an unbound listener always gets a non-zero receive ifindex, as the kernel delivers once IP_PKTINFO is on"),
 		runs: []runSpec{{engine: "hostile", netns: true, qBatches: 16, qCases: 3, tBatches: 64, tCases: 40, stall: 6 * time.Minute},
 			// the same histories against a 32-bit build of the whole server (GOARCH=386, no cgo: chains without range)
@@ -123,7 +123,7 @@ var specs = map[string]*propSpec{
 	},
 	"C02": {
 		level:       "exploration",
-		rule:        "each history fixes a range (2..256 addresses, also 4097 in the thorough tier; ranges ending at 255.255.255.255 and starting at x.x.x.0), a lease time and an alphabet of N+3 clients (hardware-address lengths 0..16, arbitrary-byte hostnames); DISCOVER/REQUEST datagrams go as wire bytes through HandleMsg4 into the plugin obtained from Plugin.Setup4 on a real sqlite file, with restarts on the same file (wider range / higher lease) at PRNG-chosen points; every reply is decided by a lease model (in range, injective, sticky, lease time, drop iff full). Concurrent bursts are checked with porcupine under -race. Non-trivial = history that served >= 2 clients and reached exhaustion or crossed a restart; distinct by (range, lease, seed)",
+		rule:        "each history fixes a range (2..256 addresses, also 4097 in the thorough tier; ranges ending at 255.255.255.255 and starting at x.x.x.0), a lease time and an alphabet of N+3 clients (hardware-address lengths 0..16, arbitrary-byte hostnames); DISCOVER/REQUEST datagrams go as wire bytes through HandleMsg4 into the plugin obtained from Plugin.Setup4 on a real sqlite file, with restarts on the same file (wider range, higher or lower lease, or a shrunk/moved range that leaves stored leases outside: refusing to start and serving only in-range addresses are both fine) at PRNG-chosen points, clients whose hardware addresses differ only by trailing zero bytes, a write-locked database while a bound client renews and while a new client has two datagrams in flight; every reply is decided by a lease model (in range, injective, sticky, lease time, drop iff full). Concurrent bursts are checked with porcupine under -race. Non-trivial = history that served >= 2 clients and reached exhaustion or crossed a restart; distinct by (range, lease, seed)",
 		assumptions: assume("the code has no lease expiry/GC, so 'first given' is over the whole history", "single-address ranges are refused by the plugin's setup and are not driven"),
 		runs: []runSpec{
 			{engine: "range", qBatches: 32, qCases: 8, tBatches: 192, tCases: 16},
@@ -135,7 +135,7 @@ var specs = map[string]*propSpec{
 	},
 	"C03": {
 		level:       "fault_enumeration",
-		rule:        "crash points = every prefix of every request history: after every reply the database file (and any journal) is copied and reopened by a fresh plugin instance (Setup4 must succeed), leases4 rows are compared with the model (none lost/unknown/duplicated, stored expiry >= floor(t_before_call+lease)-1s) and known clients are probed for their address; thorough adds SIGKILL of a child process at acknowledged points. Hardware-address lengths 0..16, hostnames of arbitrary bytes incl. numeric-looking text. Non-trivial = crash point at which the database held >= 1 binding written by the handler; distinct by (history, step)",
+		rule:        "crash points = every prefix of every request history: after every reply the database file (and any journal) is copied and reopened by a fresh plugin instance (Setup4 must succeed), leases4 rows are compared with the model (none lost/unknown/duplicated, stored expiry >= floor(t_before_call+lease)-1s) and known clients are probed for their address; byte-identical datagrams repeated 550-950 ms apart (the stored expiry must follow every copy); thorough adds SIGKILL of a child process at acknowledged points. Hardware-address lengths 0..16, hostnames of arbitrary bytes incl. numeric-looking text. Non-trivial = crash point at which the database held >= 1 binding written by the handler; distinct by (history, step)",
 		assumptions: assume("crash points are process kills and file copies at quiescent points, not power failures (fsync honesty is not observable)", "hostname round-trip through sqlite NUMERIC affinity is recorded but is not part of the property"),
 		runs: []runSpec{
 			{engine: "range", qBatches: 32, qCases: 4, tBatches: 128, tCases: 12},
